@@ -66,7 +66,7 @@ def cfg_mul(tier, seed):
     pairs = [(a, b) for a in shapes for b in shapes]
     rng.shuffle(pairs)
     keep = [p for p in pairs if p[0] == () or p[1] == ()][:8] + [p for p in pairs if p[0] != () and p[1] != ()][:(16 if tier == 'quick' else 60)]
-    keep += [((), ()), ((1, 1), (1, 1)), ((1, 1), (3, 3)), ((3, 2), (2, 3))]
+    keep += [((), ()), ((1, 1), (1, 1)), ((1, 1), (3, 3)), ((3, 2), (2, 3)), ((2, 2), (2, 2)), ((2, 3), (2, 3)), ((3, 3), (3, 3))]       # equal shapes at different, overlapping places
     out = []
     for a, b in keep:
         ds = _deltas(top + 1)
@@ -271,6 +271,7 @@ def run_ext(W, cfg):
         if shp == ():
             W.ob_true('empty shape => no common pixel', ~(in_a & in_b) if W.sym else not (in_a and in_b))
             return
+        W.ob_true('a non-empty intersection shape has positive sides', (shp[0] > 0) & (shp[1] > 0) if W.sym else (shp[0] > 0 and shp[1] > 0))
         e = X.intersection_extent(a, b)
         in_e = fs.inside(W, e, r, c)
         W.ob_true('intersection extent = common pixels', (in_e == (in_a & in_b)) if W.sym else (in_e == (in_a and in_b)))
